@@ -11,4 +11,6 @@ import TvNetTcp.Props.C13
 #print axioms TV.C13.witness_F_C13_1
 #print axioms TV.C13.fixed_F_C13_1
 #print axioms TV.C13.witness_F_C13_2
+#print axioms TV.C13.witness_F_C13_3
+#print axioms TV.C13.fixed_F_C13_3
 #print axioms TV.C13.C13_partial
